@@ -34,7 +34,14 @@ class HashOracle:
             return (h >> 16) % 300
         return (h >> 16) & MASK
 
+    INPUT_BOUNDARY = [MASK, 0, 1, MASK - 1, 2, 1 << 255, 32, 0x80, (1 << 255) - 1, 255, 256, 31, 3, (1 << 160) - 1,
+                      (1 << 255) + 1, MASK - 31, 0xa0, 33]
+
     def inp(self, i):
+        # the first seeds walk every input through the boundary list (input i is offset so that pairs vary too)
+        B = self.INPUT_BOUNDARY
+        if isinstance(self.seed, int) and 0 <= self.seed < 2 * len(B):
+            return B[(self.seed + i * (5 + self.seed // len(B))) % len(B)]
         return self._word('in', i)
 
     def const(self, key):
